@@ -22,7 +22,7 @@ from pyvc import run as RUN  # noqa
 from pyvc import lemmas as LEM  # noqa
 import pyvc.pandas_model  # noqa  (registers the assumed pandas contracts)
 
-CONTRACT_MODULES = ['filter_utils', 'generic_helper', 'validation', 'profiler', 'missing_value_handler', 'externals', 'token_ordering', 'position', 'set_sim_join', 'join_drivers', 'overlap', 'candset', 'size', 'matcher']
+CONTRACT_MODULES = ['filter_utils', 'generic_helper', 'validation', 'profiler', 'missing_value_handler', 'externals', 'token_ordering', 'position', 'set_sim_join', 'join_drivers', 'overlap', 'candset', 'size', 'matcher', 'ovcoeff', 'prefix', 'editdist']
 
 
 def load_contracts():
@@ -153,12 +153,25 @@ def verify_functions(quals, timeout_ms, procs=None):
         if not unk or o.get('cached') or len(unk) > 4 or any(r['status'] == 'sat' for r in o.get('results', [])):
             continue
         redo = RUN.verify_case(repo_root(), t[0], t[1], timeout_ms=60000, only_names=unk, retry=False)
-        better = dict((r['name'], r) for r in redo.get('results', []) if r['status'] != 'unknown' and r['kind'] != 'vacuity')
-        if better:
-            o['results'] = [better.get(r['name'], r) if r['status'] == 'unknown' else r for r in o['results']]
-            for r in o['results']:
-                if r['name'] in better:
-                    r['detail'] = 'decided in a sequential re-run. ' + (r.get('detail') or '')
+        # obligation names are not unique (one per path): results are matched by (name, occurrence)
+        by_name = {}
+        for r in redo.get('results', []):
+            if r['kind'] != 'vacuity':
+                by_name.setdefault(r['name'], []).append(r)
+        seen, changed, merged = {}, False, []
+        for r in o['results']:
+            k = seen.get(r['name'], 0)
+            seen[r['name']] = k + 1
+            lst = by_name.get(r['name'], [])
+            if r['status'] == 'unknown' and r['kind'] != 'vacuity' and k < len(lst) and lst[k]['status'] != 'unknown':
+                nr = dict(lst[k])
+                nr['detail'] = 'decided in a sequential re-run. ' + (nr.get('detail') or '')
+                merged.append(nr)
+                changed = True
+            else:
+                merged.append(r)
+        if changed:
+            o['results'] = merged
             _store(t, o)
     return outs
 
@@ -281,6 +294,7 @@ def check_property(pid, tier='quick', seed=0):
     btargets += [dict(x) for x in spec.get('bounded_extra', [])]
     bounded_results = run_bounded(btargets, tier, seed)
     failing = [r for r in all_results if r['status'] != 'unsat'] + undecided
+    failing.sort(key=lambda r: 0 if r['status'] == 'sat' else 1)      # a refutation speaks for all same-named obligations
     n_obl = len(all_results) + len(undecided)
     n_ok = sum(1 for r in all_results if r['status'] == 'unsat')
     violations = []
